@@ -9,6 +9,7 @@ CONSTANTS
   CopyUnderLock = FALSE
   KeyRecheck = TRUE
   ReleaseLocks = TRUE
+  NxAtomic = TRUE
 INVARIANTS TypeOK Inv_C07_HitOwnValue Inv_TableKey Inv_PoolBlank Inv_BufOnce 
 
 CHECK_DEADLOCK FALSE
